@@ -18,6 +18,9 @@ HOSTILE = [1e30, 1e-30, -999.0, -999.9, 0.0, -5.0, float('nan'), float('inf'), f
 FLAGS = (0, 1, 2, 3, 4, 9)
 
 
+FLAGKIND = [0]
+
+
 def by_name(info):
     out = {}
     for i, n in enumerate(info.model_name):
@@ -172,6 +175,26 @@ def check_vector(ctx, rng, st, flags):
     except Exception as exc:
         if nontrivial:
             ctx.raised(exc, 'data-line:raised', 'reading / fitting the source from a data line raised: %r' % (exc,), wit)
+
+    # (00b) the flag vector given in another legal container (the setter takes any 1-d sequence of whole numbers: unsigned bytes as
+    #       from a FITS 'B' column, short integers, whole-valued floats, a list, a tuple): the flags must mean the same
+    if nontrivial:
+        FLAGKIND[0] += 1
+        fk = ['u1', 'u2', 'i2', 'f8', 'list', 'u4', 'i1', 'tuple'][FLAGKIND[0] % 8]
+        fv = [int(x) for x in flags] if fk == 'list' else (tuple(int(x) for x in flags) if fk == 'tuple' else np.array(flags).astype(fk))
+        try:
+            s_fk = gen.build_source('src', flags, flux, err)
+            s_fk.valid = fv
+            rk_ = by_name(fitter.fit(s_fk))
+            ctx.event('pair:flags-in-another-container')
+            for name, (a, s_, c, mf) in bn.items():
+                a2, s2, c2, mf2 = rk_[name]
+                if not (same_f(a, a2) and same_f(s_, s2) and same_f(c, c2)):
+                    ctx.violation('flags-container:fit-differs', 'the same flags given as %s are not fitted like the same flags given as an int64 array' % fk,
+                                  dict(wit, flags_given_as=fk, model=name, int64=(a, s_, c), other=(a2, s2, c2)))
+                    break
+        except Exception as exc:
+            ctx.raised(exc, 'flags-container:raised', 'assigning / fitting the flags given as %s raised: %r' % (fk, exc), dict(wit, flags_given_as=fk))
 
     # (0) the flags mean the same on a source object that carried other flags before: a live Source already fitted with `flags`
     #     is re-flagged (one fitted point or one limit becomes unused / plot-only) and fitted again; the result must be
@@ -419,7 +442,7 @@ def run(ctx):
                '3-D mode: penalties are decided by the numeric reference of C02 (the penalty can move the best distance)')
     ctx.require_events('fit:base', 'pair:ignored-hostile', 'pair:band-removed', 'pair:limit-vs-flag0',
                        'pair:confidence0-vs-flag0', 'pair:flag1-as-flag4', 'reference-oracle', 'pair:live-source-reflagged', 'pair:source-read-from-data-line',
-                       'pair:ignored-after-fully-fitted-source')
+                       'pair:ignored-after-fully-fitted-source', 'pair:flags-in-another-container')
     ctx.require_regimes('limit-violated:c=1', 'limit-violated:0<c<1', 'limit-satisfied', 'limit-penalised:3d', 'n=1', 'n=4')
     sets = [Setup(ctx, rng, '2d'), Setup(ctx, rng, '3d')]
     vs = vectors(ctx)
